@@ -55,7 +55,7 @@ func runIsland(rep *Report, repo, name, pkgDir, testFile, runRe, bound string, t
 			}
 		}
 	}
-	b := Bounded{Name: name, Bound: bound, Evaluations: io.Evaluations}
+	b := Bounded{Name: name, Bound: bound, Evaluations: io.Evaluations, Distinct: io.Distinct}
 	if !found {
 		b.Result = "harness did not complete"
 		rep.Bounded = append(rep.Bounded, b)
